@@ -1,0 +1,486 @@
+//! Verification hooks. Compiled only with the cargo feature `verif-hooks`.
+//!
+//! Read-only wrappers around crate-private routines, plus thread-local taps
+//! (event log, scripted randomness, fault plan) used by an external
+//! conformance harness. Nothing in here is reachable with the feature off.
+
+use std::cell::RefCell;
+
+use num::BigInt;
+use num_complex::Complex64;
+use rand::RngCore;
+
+use crate::cyclotomic_fourier::CyclotomicFourier;
+use crate::falcon::SecretKey;
+use crate::falcon_field::Felt;
+use crate::fast_fft::FastFft;
+use crate::ffsampling::LdlTree;
+use crate::inverse::Inverse;
+use crate::polynomial::Polynomial;
+use crate::u32_field::U32Field;
+
+// ---------------------------------------------------------------- codec
+
+pub fn compress(v: &[i16], byte_length: usize) -> Option<Vec<u8>> {
+    crate::encoding::compress(v, byte_length)
+}
+
+pub fn decompress(x: &[u8], n: usize) -> Option<Vec<i16>> {
+    crate::encoding::decompress(x, n)
+}
+
+// ---------------------------------------------------------------- Z_q elements
+
+pub fn felt_new(v: i16) -> i16 {
+    Felt::new(v).value()
+}
+pub fn felt_balanced(a: i16) -> i16 {
+    Felt::new(a).balanced_value()
+}
+pub fn felt_add(a: i16, b: i16) -> i16 {
+    (Felt::new(a) + Felt::new(b)).value()
+}
+pub fn felt_sub(a: i16, b: i16) -> i16 {
+    (Felt::new(a) - Felt::new(b)).value()
+}
+pub fn felt_neg(a: i16) -> i16 {
+    (-Felt::new(a)).value()
+}
+pub fn felt_mul(a: i16, b: i16) -> i16 {
+    (Felt::new(a) * Felt::new(b)).value()
+}
+pub fn felt_inverse_or_zero(a: i16) -> i16 {
+    Felt::new(a).inverse_or_zero().value()
+}
+pub fn felt_batch_inverse_or_zero(v: &[i16]) -> Vec<i16> {
+    let batch: Vec<Felt> = v.iter().map(|&a| Felt::new(a)).collect();
+    Felt::batch_inverse_or_zero(&batch)
+        .iter()
+        .map(|f| f.value())
+        .collect()
+}
+
+// ---------------------------------------------------------------- Z_q transforms
+
+fn felt_poly(v: &[i16]) -> Polynomial<Felt> {
+    Polynomial::new(v.iter().map(|&a| Felt::new(a)).collect())
+}
+fn felt_vals(p: &Polynomial<Felt>) -> Vec<i16> {
+    p.coefficients.iter().map(|f| f.value()).collect()
+}
+
+pub fn ntt_fft(v: &[i16]) -> Vec<i16> {
+    felt_vals(&felt_poly(v).fft())
+}
+pub fn ntt_ifft(v: &[i16]) -> Vec<i16> {
+    felt_vals(&felt_poly(v).ifft())
+}
+pub fn ntt_hadamard_mul(a: &[i16], b: &[i16]) -> Vec<i16> {
+    felt_vals(&felt_poly(a).hadamard_mul(&felt_poly(b)))
+}
+pub fn ntt_split(v: &[i16]) -> (Vec<i16>, Vec<i16>) {
+    let (a, b) = felt_poly(v).split_fft();
+    (felt_vals(&a), felt_vals(&b))
+}
+pub fn ntt_merge(a: &[i16], b: &[i16]) -> Vec<i16> {
+    felt_vals(&Polynomial::<Felt>::merge_fft(&felt_poly(a), &felt_poly(b)))
+}
+pub fn felt_table_powers() -> Vec<i16> {
+    crate::fast_fft::verif_felt_tables().0
+}
+pub fn felt_table_powers_inverse() -> Vec<i16> {
+    crate::fast_fft::verif_felt_tables().1
+}
+/// (n, n^-1) for n = 1, 2, ..., 1024
+pub fn felt_table_ninv() -> Vec<(usize, i16)> {
+    crate::fast_fft::verif_felt_tables().2
+}
+
+// ---------------------------------------------------------------- 30-bit field
+
+pub fn u32f_new(v: i32) -> u32 {
+    U32Field::new(v).0
+}
+pub fn u32f_balanced(a: u32) -> i32 {
+    U32Field(a).balanced_value()
+}
+pub fn u32f_add(a: u32, b: u32) -> u32 {
+    (U32Field(a) + U32Field(b)).0
+}
+pub fn u32f_sub(a: u32, b: u32) -> u32 {
+    (U32Field(a) - U32Field(b)).0
+}
+pub fn u32f_neg(a: u32) -> u32 {
+    (-U32Field(a)).0
+}
+pub fn u32f_mul(a: u32, b: u32) -> u32 {
+    (U32Field(a) * U32Field(b)).0
+}
+pub fn u32f_inverse_or_zero(a: u32) -> u32 {
+    U32Field(a).inverse_or_zero().0
+}
+pub fn u32f_fft(v: &[u32]) -> Vec<u32> {
+    let p = Polynomial::new(v.iter().map(|&a| U32Field(a)).collect::<Vec<_>>());
+    p.fft().coefficients.iter().map(|f| f.0).collect()
+}
+pub fn u32f_ifft(v: &[u32]) -> Vec<u32> {
+    let p = Polynomial::new(v.iter().map(|&a| U32Field(a)).collect::<Vec<_>>());
+    p.ifft().coefficients.iter().map(|f| f.0).collect()
+}
+pub fn u32f_table_powers() -> Vec<u32> {
+    crate::fast_fft::verif_u32_tables().0
+}
+pub fn u32f_table_powers_inverse() -> Vec<u32> {
+    crate::fast_fft::verif_u32_tables().1
+}
+pub fn u32f_table_ninv() -> Vec<(usize, u32)> {
+    crate::fast_fft::verif_u32_tables().2
+}
+
+// ---------------------------------------------------------------- complex transforms
+
+fn cpoly(v: &[(f64, f64)]) -> Polynomial<Complex64> {
+    Polynomial::new(v.iter().map(|&(re, im)| Complex64::new(re, im)).collect())
+}
+fn cvals(p: &Polynomial<Complex64>) -> Vec<(f64, f64)> {
+    p.coefficients.iter().map(|c| (c.re, c.im)).collect()
+}
+pub fn cfft(v: &[(f64, f64)]) -> Vec<(f64, f64)> {
+    cvals(&cpoly(v).fft())
+}
+pub fn cifft(v: &[(f64, f64)]) -> Vec<(f64, f64)> {
+    cvals(&cpoly(v).ifft())
+}
+pub fn chadamard_mul(a: &[(f64, f64)], b: &[(f64, f64)]) -> Vec<(f64, f64)> {
+    cvals(&cpoly(a).hadamard_mul(&cpoly(b)))
+}
+pub fn csplit(v: &[(f64, f64)]) -> (Vec<(f64, f64)>, Vec<(f64, f64)>) {
+    let (a, b) = cpoly(v).split_fft();
+    (cvals(&a), cvals(&b))
+}
+pub fn cmerge(a: &[(f64, f64)], b: &[(f64, f64)]) -> Vec<(f64, f64)> {
+    cvals(&Polynomial::<Complex64>::merge_fft(&cpoly(a), &cpoly(b)))
+}
+pub fn complex_table_powers() -> Vec<(f64, f64)> {
+    crate::fast_fft::verif_complex_table()
+}
+pub fn complex_primitive_root(n: usize) -> (f64, f64) {
+    let c = Complex64::primitive_root_of_unity(n);
+    (c.re, c.im)
+}
+
+// ---------------------------------------------------------------- hash
+
+pub fn hash_to_point(string: &[u8], n: usize) -> Vec<i16> {
+    felt_vals(&crate::polynomial::hash_to_point(string, n))
+}
+
+// ---------------------------------------------------------------- sampler
+
+pub fn base_sampler(bytes: [u8; 9]) -> i16 {
+    crate::samplerz::verif_base_sampler(bytes)
+}
+pub fn approx_exp(x: f64, ccs: f64) -> u64 {
+    crate::samplerz::verif_approx_exp(x, ccs)
+}
+pub fn ber_exp(x: f64, ccs: f64, random_bytes: [u8; 7]) -> bool {
+    crate::samplerz::verif_ber_exp(x, ccs, random_bytes)
+}
+pub fn sampler_z(mu: f64, sigma: f64, sigma_min: f64, rng: &mut dyn RngCore) -> i16 {
+    crate::samplerz::sampler_z(mu, sigma, sigma_min, rng)
+}
+
+// ---------------------------------------------------------------- secret key internals
+
+/// [g, -f, G, -F] as stored.
+pub fn sk_b0<const N: usize>(sk: &SecretKey<N>) -> [Vec<i16>; 4] {
+    sk.verif_b0()
+}
+
+/// One entry per tree node, in pre-order (node, left, right).
+#[derive(Debug, Clone)]
+pub enum TreeNode {
+    Branch(Vec<(f64, f64)>),
+    Leaf((f64, f64), (f64, f64)),
+}
+
+fn walk(tree: &LdlTree, out: &mut Vec<TreeNode>) {
+    match tree {
+        LdlTree::Branch(ell, left, right) => {
+            out.push(TreeNode::Branch(cvals(ell)));
+            walk(left, out);
+            walk(right, out);
+        }
+        LdlTree::Leaf(v) => out.push(TreeNode::Leaf((v[0].re, v[0].im), (v[1].re, v[1].im))),
+    }
+}
+
+pub fn sk_tree<const N: usize>(sk: &SecretKey<N>) -> Vec<TreeNode> {
+    let mut out = vec![];
+    walk(sk.verif_tree(), &mut out);
+    out
+}
+
+/// The leaf values sigma / sqrt(d) in tree order.
+pub fn sk_leaves<const N: usize>(sk: &SecretKey<N>) -> Vec<f64> {
+    sk_tree(sk)
+        .into_iter()
+        .filter_map(|n| match n {
+            TreeNode::Leaf(a, _) => Some(a.0),
+            _ => None,
+        })
+        .collect()
+}
+
+/// Build a secret key from a basis [g, -f, G, -F] (the crate-private `from_b0`).
+pub fn sk_from_b0<const N: usize>(b0: [Vec<i16>; 4]) -> SecretKey<N> {
+    SecretKey::<N>::verif_from_b0(b0)
+}
+
+// ---------------------------------------------------------------- key generation internals
+
+pub fn gen_poly(n: usize, rng: &mut dyn RngCore) -> Vec<i16> {
+    crate::math::verif_gen_poly(n, rng)
+}
+pub fn gram_schmidt_norm_squared(f: &[i16], g: &[i16]) -> f64 {
+    crate::math::verif_gram_schmidt_norm_squared(f, g)
+}
+pub fn ntru_solve_bigint(f: &[BigInt], g: &[BigInt]) -> Option<(Vec<BigInt>, Vec<BigInt>)> {
+    crate::math::verif_ntru_solve(f, g)
+}
+pub fn ntru_solve_entrypoint(f: &[i32], g: &[i32]) -> Option<(Vec<i32>, Vec<i32>)> {
+    crate::math::verif_ntru_solve_entrypoint(f, g)
+}
+pub fn field_norm_i32(f: &[i32]) -> Vec<i32> {
+    Polynomial::new(f.to_vec()).field_norm().coefficients
+}
+pub fn karatsuba_bigint(a: &[BigInt], b: &[BigInt]) -> Vec<BigInt> {
+    Polynomial::new(a.to_vec())
+        .karatsuba(&Polynomial::new(b.to_vec()))
+        .coefficients
+}
+
+// ---------------------------------------------------------------- taps
+
+/// What the taps record. All fields are plain data.
+#[derive(Debug, Clone)]
+pub enum Event {
+    /// `fill_bytes` on the signer's generator: the bytes handed out.
+    RngFill(Vec<u8>),
+    /// number of `next_u32`/`next_u64` words handed out since the previous event
+    RngWords(u64),
+    /// sign: float norm of a candidate, and whether the plan forced a rejection
+    SignNorm { length_squared: f64, forced: bool },
+    /// sign: outcome of a compression attempt (`None` = did not fit), and whether forced
+    SignCompress { fitted: bool, forced: bool },
+    /// sampler_z: one loop iteration, before its Bernoulli trial
+    SamplerIter {
+        mu: f64,
+        sigma: f64,
+        sigma_min: f64,
+        z0: i16,
+        b: i16,
+        x: f64,
+        ccs: f64,
+    },
+    /// ber_exp: arguments and verdict
+    BerExp {
+        x: f64,
+        ccs: f64,
+        random_bytes: [u8; 7],
+        result: bool,
+    },
+    /// ntru_gen: one candidate; verdict 0 = accepted, 1 = f not invertible, 2 = GS norm, 3 = solver
+    NtruCandidate { verdict: u8, gamma: f64 },
+}
+
+#[derive(Debug, Clone, Default)]
+pub struct Plan {
+    /// record events
+    pub record: bool,
+    /// record sampler iterations too (voluminous)
+    pub record_sampler: bool,
+    /// sign: the k-th norm test (0-based, counted per call to `begin`) is forced to reject
+    pub force_norm_reject: Vec<bool>,
+    /// sign: the k-th compression attempt is forced to fail
+    pub force_compress_fail: Vec<bool>,
+    /// bytes served by the tapped generator before it falls through to the real one;
+    /// `fill_bytes` takes them one per byte, `next_u32`/`next_u64` one per word
+    /// (low byte, rest zero) as the crate's own test generator does
+    pub script: Vec<u8>,
+}
+
+#[derive(Default)]
+struct TapState {
+    plan: Plan,
+    events: Vec<Event>,
+    norm_idx: usize,
+    compress_idx: usize,
+    script_pos: usize,
+    words: u64,
+}
+
+thread_local! {
+    static TAP: RefCell<Option<TapState>> = const { RefCell::new(None) };
+}
+
+/// Install a plan on this thread (replacing any previous one) and clear the log.
+pub fn begin(plan: Plan) {
+    TAP.with(|t| {
+        *t.borrow_mut() = Some(TapState {
+            plan,
+            ..Default::default()
+        })
+    });
+}
+
+/// Remove the plan and return the recorded events.
+pub fn end() -> Vec<Event> {
+    TAP.with(|t| {
+        let mut st = t.borrow_mut().take();
+        match st.as_mut() {
+            Some(s) => {
+                flush_words(s);
+                std::mem::take(&mut s.events)
+            }
+            None => vec![],
+        }
+    })
+}
+
+fn flush_words(s: &mut TapState) {
+    if s.words > 0 && s.plan.record {
+        s.events.push(Event::RngWords(s.words));
+    }
+    s.words = 0;
+}
+
+pub(crate) fn emit(e: Event) {
+    TAP.with(|t| {
+        if let Some(s) = t.borrow_mut().as_mut() {
+            if s.plan.record {
+                flush_words(s);
+                s.events.push(e);
+            }
+        }
+    });
+}
+
+pub(crate) fn sampler_recording() -> bool {
+    TAP.with(|t| {
+        t.borrow()
+            .as_ref()
+            .map(|s| s.plan.record && s.plan.record_sampler)
+            .unwrap_or(false)
+    })
+}
+
+pub(crate) fn tap_norm(length_squared: f64) -> f64 {
+    let forced = TAP.with(|t| {
+        if let Some(s) = t.borrow_mut().as_mut() {
+            let k = s.norm_idx;
+            s.norm_idx += 1;
+            s.plan.force_norm_reject.get(k).copied().unwrap_or(false)
+        } else {
+            false
+        }
+    });
+    emit(Event::SignNorm {
+        length_squared,
+        forced,
+    });
+    if forced {
+        f64::INFINITY
+    } else {
+        length_squared
+    }
+}
+
+pub(crate) fn tap_compress(maybe_s: Option<Vec<u8>>) -> Option<Vec<u8>> {
+    let forced = TAP.with(|t| {
+        if let Some(s) = t.borrow_mut().as_mut() {
+            let k = s.compress_idx;
+            s.compress_idx += 1;
+            s.plan.force_compress_fail.get(k).copied().unwrap_or(false)
+        } else {
+            false
+        }
+    });
+    emit(Event::SignCompress {
+        fitted: maybe_s.is_some(),
+        forced,
+    });
+    if forced {
+        None
+    } else {
+        maybe_s
+    }
+}
+
+/// Wrapper around the signer's generator: records what is drawn, and serves the
+/// plan's scripted bytes first.
+pub struct TapRng<R: RngCore> {
+    inner: R,
+}
+
+impl<R: RngCore> TapRng<R> {
+    pub fn new(inner: R) -> Self {
+        TapRng { inner }
+    }
+}
+
+fn scripted_byte() -> Option<u8> {
+    TAP.with(|t| {
+        if let Some(s) = t.borrow_mut().as_mut() {
+            if s.script_pos < s.plan.script.len() {
+                let b = s.plan.script[s.script_pos];
+                s.script_pos += 1;
+                return Some(b);
+            }
+        }
+        None
+    })
+}
+
+fn count_word() {
+    TAP.with(|t| {
+        if let Some(s) = t.borrow_mut().as_mut() {
+            s.words += 1;
+        }
+    });
+}
+
+impl<R: RngCore> RngCore for TapRng<R> {
+    fn next_u32(&mut self) -> u32 {
+        count_word();
+        match scripted_byte() {
+            Some(b) => b as u32,
+            None => self.inner.next_u32(),
+        }
+    }
+    fn next_u64(&mut self) -> u64 {
+        count_word();
+        match scripted_byte() {
+            Some(b) => b as u64,
+            None => self.inner.next_u64(),
+        }
+    }
+    fn fill_bytes(&mut self, dest: &mut [u8]) {
+        let mut served = 0;
+        while served < dest.len() {
+            match scripted_byte() {
+                Some(b) => {
+                    dest[served] = b;
+                    served += 1;
+                }
+                None => break,
+            }
+        }
+        self.inner.fill_bytes(&mut dest[served..]);
+        emit(Event::RngFill(dest.to_vec()));
+    }
+    fn try_fill_bytes(&mut self, dest: &mut [u8]) -> Result<(), rand::Error> {
+        self.fill_bytes(dest);
+        Ok(())
+    }
+}
